@@ -403,7 +403,12 @@ class MapDecoder:
         for o in outcomes(self.fn, self.pv):
             if o["kind"] == "ok":
                 continue
-            out.append((self.class_name(self.classes_at(o["bb"])), site_key(o, self.fn), o))
+            cname, key = self.class_name(self.classes_at(o["bb"])), site_key(o, self.fn)
+            if cname == "pre" and ((key == "propagate:" + codec.TRY_MAP and self.map_source == "try_as_map")
+                                   or (key == "type-error:slot?" and self.map_source == "match Map"
+                                       and o["term"][2][0] in (("ref", ("param", 0), False), ("param", 0)))):
+                key = "not-a-map"    # `value.try_as_map()?` and `match value { Value::Map(m) => m, v => return type_error }`
+            out.append((cname, key, o))
         return out
 
 
@@ -464,9 +469,37 @@ class MapEncoder:
             ent["label"] = lab
             if e["loop"] is None:
                 ent["kind"], ent["field"] = codec.emit_kind(prog, fn, pv, ve)
+                split = self._split_value_arms(ent, vop, d[2], d[3]) if ent["kind"] == "?" else None
+                if split:
+                    self.entries.extend(split)
+                    continue
             self.entries.append(ent)
         self._dupset()
         self._self_mutations()
+
+    def _split_value_arms(self, ent, vop, bb, idx):
+        """`let v = if c { A } else { B }; map.push((label, v))` is `if c { push((label, A)) } else { push((label, B)) }`:
+        one entry per arm of the value, guarded by the push's conditions plus the arm's own"""
+        fn, pv, prog = self.fn, self.pv, self.prog
+        alist = codec._def_stmts(pv, vop, bb, idx)
+        if len(alist) < 2 or len({a[1] for a in alist}) != len(alist):
+            return None
+        order = {b: i for i, b in enumerate(fn.cfg.rpo)}
+        out = []
+        for term, dbb, _ in sorted(alist, key=lambda a: order.get(a[1], 10 ** 6)):
+            conds = list(ent["e"]["conds"])
+            for c in conditions(fn, pv, dbb):
+                if c not in conds:
+                    conds.append(c)
+            ve = {"op": {"k": "const", "ty": "?", "val": None}, "at": (dbb, "term"), "term": term, "conds": conds}
+            sub = dict(ent)
+            sub["value"] = ve
+            sub["guard"] = codec.guard_desc(prog, fn, pv, {"conds": conds})
+            sub["kind"], sub["field"] = codec.emit_kind(prog, fn, pv, ve)
+            if sub["kind"] == "?":
+                return None
+            out.append(sub)
+        return out
 
     def _self_mutations(self):
         """calls that mutate a field of self (other than the output map / the duplicate set): [(field, callee, args, bb)]"""
